@@ -145,11 +145,13 @@ func autoDiscover(ctx context.Context, params discoverParams) []dsModels.Discove
 
 	go func() {
 		var wgIPGenerators sync.WaitGroup
+	launch:
 		for _, ipnet := range ipnets {
 			select {
 			case <-ctx.Done():
-				// quit early if we have been cancelled
-				return
+				// stop launching generators if we have been cancelled, but still
+				// close the channels below, or the caller would wait for ever
+				break launch
 			default:
 			}
 
